@@ -71,7 +71,11 @@ def build_cases(table):
                     'id': len(cases), 'category': row['category'], 'rule': row['name'], 'label': lab, 'scenario': si,
                     'files': files, 'config_yaml': sc.get('config_yaml', fx.get('config_yaml', '')),
                     'embed': sc.get('embed', fx.get('embed', 'all')),
-                    'batch': (row['category'], row['name']) not in aggregate and len(files) == 1,
+                    # several copies of a single-file example may share one lint call, unless the rule looks
+                    # across files (aggregate) or at the path of the file
+                    'batch': ((row['category'], row['name']) not in aggregate and len(files) == 1
+                              and '/' not in files[0]['name'] and row['reason'] != 'RFileName'
+                              and fx.get('batch', True)),
                     'from_docs': any('docs' in f for f in sc['files']),
                     'wrapped': any('docs' in f and wrap(row[f['docs'][0]][f['docs'][1]])[1] for f in sc['files']),
                 })
@@ -93,3 +97,340 @@ def run_harness(ctx, h, cases, mode, tag):
     if rc != 0:
         raise RuntimeError('c08 harness failed: ' + log[-2000:])
     return [json.loads(l) for l in open(out)]
+
+
+# ------------------------------------------------------------------------------------------------- Coq side
+
+def coq_ops(emb):
+    out, n = [], 0
+    for o in emb:
+        if o[0] == 'P':
+            out.append('OBlankPkg %d%%nat' % int(o[1:]))
+        elif o[0] == 'T':
+            out.append('OBlankTop %d%%nat' % int(o[1:]))
+        elif o == 'C':
+            out.append('OCrlf')
+        elif o == 'A':
+            n += 1
+            out.append('OAppend [[]; %s; []]' % cstr('zz_verif_unrelated_%d := %d' % (n, n)))
+        else:
+            raise ValueError(o)
+    return clist(out)
+
+
+def locs(vs):
+    return clist('(%d, %d, %d, %d)' % (v['row'], v['col'], v['erow'], v['ecol']) for v in vs)
+
+
+def coq_check(ctx, items, name='Cases_C08'):
+    """items: [(case, file_index, emb, got_text, id_viols, emb_viols)] -> (bad_text, bad_rows, bad_texts) index lists"""
+    v = ['From Regal Require Import Check.C08Check.', 'Open Scope N_scope.']
+    defined = {}
+    rows = []
+    for (c, fi, emb, got, idv, embv) in items:
+        k = (c['id'], fi)
+        if k not in defined:
+            defined[k] = 't_%d_%d' % k
+            v.append('Definition %s : str := %s.' % (defined[k], cstr(c['files'][fi]['text'])))
+        rows.append('{| e_orig := %s; e_ops := %s; e_got := %s; e_id := %s; e_emb := %s; e_texts := %s |}' % (
+            defined[k], coq_ops(emb), cstr(got), locs(idv), locs(embv),
+            clist('(%d, %s)' % (x['row'], cstr(x['text'])) for x in embv if x['has_text'] and x['row'] > 0)))
+    v.append('Definition cases : list emb_case := ' + clist(rows) + '.')
+    v.append('Definition R1 := Eval vm_compute in failing text_agrees 0 cases.')
+    v.append('Definition R2 := Eval vm_compute in failing rows_agree 0 cases.')
+    v.append('Definition R3 := Eval vm_compute in failing texts_agree 0 cases.')
+    v.append('Print R1. Print R2. Print R3.')
+    rc, out = vlib.coq_eval(ctx, name, '\n'.join(v), timeout=1500)
+    if rc != 0:
+        raise RuntimeError('case evaluation failed:\n' + out[-3000:])
+    r = [vlib.parse_nat_list(out, m) for m in ('R1', 'R2', 'R3')]
+    if any(x is None for x in r):
+        raise RuntimeError('cannot parse Coq output:\n' + out[-2000:])
+    return r
+
+
+def line_table_texts(ctx, cases):
+    """texts for the PrepareAST tie: a seeded sample of example texts as they are, CRLF, half CRLF, plus
+    hand-made ones with stray CRs"""
+    uniq = sorted({f['text'] for c in cases for f in c['files'] if len(f['text']) < 2500})
+    n = 40 if ctx.quick() else 160
+    pick = sorted(ctx.rng.shuffle(uniq)[:n])
+    out = []
+    for t in pick:
+        half = len(t) // 2
+        out += [t, t.replace('\n', '\r\n'), t[:half].replace('\n', '\r\n') + t[half:]]
+    out += ['package p\n', 'package p', 'package p\r\n', 'package p\r\n\r\n# a\r\r\nx := 1\r\n',
+            'package p\n\n# c\rd\nx := 1', 'package p\r\n\r\nx := `a\r\nb`\r\n', 'package p\n\n\n\n']
+    return out
+
+
+def line_table_check(ctx, texts):
+    """-> (n_compared, indices whose PrepareAST lines differ from Model.Layout.regal_lines)"""
+    inp = os.path.join(ctx.tmp, 'c08_lines_in.json')
+    outp = os.path.join(ctx.tmp, 'c08_lines_out.json')
+    json.dump(texts, open(inp, 'w'))
+    rc, log = vlib.go_test_overlay(ctx, './internal/parse', {'internal/parse/zz_verif_c08_test.go':
+                                   os.path.join(vlib.VERIF, 'harness', 'overlay', 'c08_test.go')},
+                                   'TestVerifC08', env_extra={'VERIF_C08_IN': inp, 'VERIF_C08_OUT': outp})
+    if rc != 0 or not os.path.exists(outp):
+        raise vlib.HarnessBuildError('overlay test internal/parse failed:\n' + log[-2000:])
+    got = json.load(open(outp))
+    pairs = [(t, g) for t, g in zip(texts, got) if g is not None]
+    v = ['From Regal Require Import Check.C08Check.', 'Open Scope N_scope.',
+         'Definition pairs : list (str * list str) := ' + clist(
+             '(%s, %s)' % (cstr(t), clist(cstr(l) for l in g)) for t, g in pairs) + '.',
+         'Definition R4 := Eval vm_compute in failing lines_agree 0 pairs.', 'Print R4.']
+    rc, out = vlib.coq_eval(ctx, 'Cases_C08_lines', '\n'.join(v), timeout=900)
+    if rc != 0:
+        raise RuntimeError('case evaluation failed:\n' + out[-3000:])
+    r4 = vlib.parse_nat_list(out, 'R4')
+    if r4 is None:
+        raise RuntimeError('cannot parse Coq output:\n' + out[-2000:])
+    return pairs, r4
+
+
+# ------------------------------------------------------------------------------------------------- verdicts
+
+def emb_cost(emb):
+    return (len(emb), sum(int(o[1:]) if o[0] in 'PT' else 0 for o in emb), emb)
+
+
+def mine(c, res):
+    return [x for x in res['violations'] if x['title'] == c['rule']]
+
+
+def verdict_problem(c, res):
+    """None when the run shows the documented verdict"""
+    if res['error']:
+        return 'example-does-not-lint'
+    if any(x['title'] != c['rule'] for x in res['violations']):
+        return 'foreign-rule-reported'
+    flagged = bool(mine(c, res))
+    if c['label'] == 'avoid' and not flagged:
+        return 'avoid-not-flagged'
+    if c['label'] == 'prefer' and flagged:
+        return 'prefer-flagged'
+    return None
+
+
+def case_key(c):
+    return '%s/%s %s#%d' % (c['category'], c['rule'], c['label'], c['scenario'])
+
+
+def run(ctx):
+    gen = _gen()
+    table = gen.build_table(vlib.REPO)
+    cases, problems = build_cases(table)
+    h = vlib.build_harness(ctx, 'c08')
+    mode = ctx.tier
+    rp = None
+    if ctx.replay:
+        rp = json.load(open(ctx.replay))
+        if rp.get('kind') == 'line-table':
+            pairs, badl = line_table_check(ctx, [rp['text']])
+            if badl:
+                vlib.violation(ctx, {'kind': 'line-table', 'text': rp['text'], 'prepare_ast_lines': pairs[0][1],
+                                     'what': 'replayed: parse.PrepareAST line table differs from the model'},
+                               signature=rp.get('signature'))
+            proof_gate(ctx)
+            return vlib.finish(ctx, 'other', proof_coverage(ctx, {'explanation': 'replay of one line-table case',
+                               'evaluations': 1, 'distinct_nontrivial': 1, 'rule': 'replay'}), [])
+        if 'case' in rp:
+            c = dict(rp['case'])
+            c['id'] = 0
+            c['embeddings'] = [[]] + ([rp['emb']] if rp.get('emb') else [])
+            cases, problems, mode = [c], [], 'replay'
+    lt = {}
+    th = None
+    if mode != 'replay':
+        import threading
+        lt_texts = line_table_texts(ctx, cases)
+
+        def _lt():
+            try:
+                lt['pairs'], lt['bad'] = line_table_check(ctx, lt_texts)
+            except BaseException as e:      # re-raised in the main thread
+                lt['exc'] = e
+        th = threading.Thread(target=_lt)
+        th.start()
+    results = run_harness(ctx, h, cases, mode, 'main')
+    results.sort(key=lambda r: (r['id'], len(r['emb']), r['emb'], r['mode']))
+
+    for p in problems[:3]:
+        vlib.violation(ctx, dict(p, what='docs table / fixture inconsistency'), no_input=True,
+                       signature={'kind': p['kind'], 'key': p['page']})
+
+    by = {}       # (id, emb) -> {mode: result}
+    dups = []
+    for r in results:
+        if r['mode'] == 'dup':
+            dups.append(r)
+            continue
+        by.setdefault((r['id'], tuple(r['emb'])), {})[r['mode']] = r
+
+    def primary(cid, emb):
+        d = by.get((cid, tuple(emb)))
+        if not d:
+            return None
+        return d.get('single') or d.get('batch')
+
+    # ---- the property itself, on the implementation: documented verdict under every embedding ------------
+    bad = {}      # case id -> [(emb, kind, result)]
+    batch_mismatch = []
+    for (cid, emb), d in sorted(by.items(), key=lambda kv: (kv[0][0], emb_cost(list(kv[0][1])))):
+        c = cases[cid]
+        for m, r in d.items():
+            k = verdict_problem(c, r)
+            if k:
+                bad.setdefault(cid, []).append((list(emb), k, r))
+        if 'single' in d and 'batch' in d and not d['single']['error'] and not d['batch']['error']:
+            if mine(c, d['single']) != mine(c, d['batch']):
+                batch_mismatch.append((c, list(emb), d))
+    n_reported = 0
+    for cid in sorted(bad):
+        c = cases[cid]
+        emb, kind, r = min(bad[cid], key=lambda t: emb_cost(t[0]))
+        ident_bad = any(not e for e, _, _ in bad[cid])
+        if ident_bad:
+            sig = {'kind': kind, 'key': case_key(c)}
+            what = '%s: %s on the unchanged example' % (case_key(c), kind)
+        else:
+            sig = {'kind': 'verdict-changes-under-embedding', 'key': '%s %s' % (case_key(c), ','.join(emb))}
+            what = '%s: documented verdict holds for the example as printed, but %s under embedding %s' % (
+                case_key(c), kind, emb)
+        if vlib.violation(ctx, {'kind': sig['kind'], 'what': what, 'case': c, 'emb': emb, 'observed': {
+                'error': r['error'], 'violations': r['violations'], 'notices': r['notices'], 'mode': r['mode'],
+                'texts': r.get('texts')}}, signature=sig):
+            n_reported += 1
+        if n_reported >= 4:
+            break
+    for c, emb, d in batch_mismatch[:1]:
+        vlib.violation(ctx, {'kind': 'batch-differs-from-single', 'case': c, 'emb': emb,
+                             'what': '%s under %s: linted alone and linted next to other files give different reports'
+                                     % (case_key(c), emb),
+                             'single': d['single']['violations'], 'batch': d['batch']['violations']},
+                       signature={'kind': 'batch-differs-from-single', 'key': case_key(c)})
+
+    # ---- correspondence with the layout model --------------------------------------------------------------
+    items, meta = [], []
+    keys = sorted(by)
+    base = [k for k in keys if len(k[1]) <= 1]
+    comp = [k for k in keys if len(k[1]) > 1]
+    if len(comp) > 1500:
+        comp = sorted(ctx.rng.shuffle(comp)[:1500])
+    dup_sample = dups if len(dups) <= 600 else ctx.rng.shuffle(sorted(dups, key=lambda r: (r['id'], r['emb'])))[:600]
+    chosen = [(cid, emb, None) for cid, emb in base + comp] + \
+             [(r['id'], tuple(r['emb']), tuple(r['dup_of'])) for r in dup_sample]
+    for cid, emb, dup_of in chosen:
+        c = cases[cid]
+        ident = primary(cid, ())
+        r = primary(cid, dup_of if dup_of is not None else emb)
+        if ident is None or r is None or ident['error'] or r['error'] or 'texts' not in r:
+            continue
+        for fi, f in enumerate(c['files']):
+            idv = [x for x in mine(c, ident) if x['file'] == f['name']]
+            embv = [x for x in mine(c, r) if x['file'] == f['name']]
+            items.append((c, fi, list(emb), r['texts'][f['name']], idv, embv))
+            meta.append((cid, list(emb), fi, dup_of))
+    r1 = r2 = r3 = []
+    if items:
+        r1, r2, r3 = coq_check(ctx, items)
+    seen_rules = set()
+    for i in r2:
+        cid, emb, fi, dup_of = meta[i]
+        c = cases[cid]
+        if c['rule'] in seen_rules:
+            continue
+        seen_rules.add(c['rule'])
+        # smallest embedding of that rule failing the relation
+        cands = [meta[j] for j in r2 if cases[meta[j][0]]['rule'] == c['rule']]
+        cid, emb, fi, dup_of = min(cands, key=lambda m: emb_cost(m[1]))
+        c = cases[cid]
+        it = items[[j for j in r2 if meta[j] == (cid, emb, fi, dup_of)][0]]
+        vlib.violation(ctx, {'kind': 'location-not-equivariant', 'case': c, 'emb': emb, 'file': c['files'][fi]['name'],
+                             'what': '%s: reported rows are not the rows of the unchanged example moved through the '
+                                     'embedding %s (Check.C08Check.rows_agree, via c08_layout_preserves_lines)'
+                                     % (case_key(c), emb),
+                             'identity_locations': it[4], 'embedded_locations': it[5]},
+                       signature={'kind': 'location-not-equivariant', 'key': c['category'] + '/' + c['rule']})
+        if len(ctx.violations) >= 5:
+            break
+    seen_rules = set()
+    for i in r3:
+        cid, emb, fi, dup_of = meta[i]
+        c = cases[cid]
+        if c['rule'] in seen_rules:
+            continue
+        seen_rules.add(c['rule'])
+        vlib.violation(ctx, {'kind': 'location-text-not-a-line', 'case': c, 'emb': emb, 'file': c['files'][fi]['name'],
+                             'what': '%s under %s: location.text is not (part of) the line of regal\'s line table at '
+                                     'the reported row, or carries a CR (Check.C08Check.texts_agree)' % (case_key(c), emb),
+                             'embedded_locations': items[i][5]},
+                       signature={'kind': 'location-text-not-a-line', 'key': c['category'] + '/' + c['rule']})
+        if len(ctx.violations) >= 5:
+            break
+    if r1 and not ctx.violations:
+        cid, emb, fi, dup_of = meta[r1[0]]
+        vlib.violation(ctx, {'kind': 'correspondence', 'relation': 'Check.C08Check.text_agrees (Model/Layout.v apply_ops/render '
+                             'vs the text transformations of harness/cmd/c08)', 'case': cases[cid], 'emb': emb,
+                             'dup_of': dup_of, 'n_mismatches': len(r1)}, no_input=True)
+    if th is not None:
+        th.join()
+        if 'exc' in lt:
+            raise lt['exc']
+        for i in lt['bad'][:1]:
+            t, g = lt['pairs'][i]
+            vlib.violation(ctx, {'kind': 'line-table', 'text': t, 'prepare_ast_lines': g,
+                                 'what': 'parse.PrepareAST builds a line table for this text that is not '
+                                         'split(replace(text, CRLF, LF), LF) (Check.C08Check.lines_agree; '
+                                         'c08_line_table_independent_of_line_ends assumes it)'},
+                           signature={'kind': 'line-table', 'key': json.dumps(t)})
+    proof_gate(ctx)
+
+    # ---- evidence ------------------------------------------------------------------------------------------
+    import collections
+    lints = [r for r in results if r['mode'] != 'dup']
+    distinct = {(cases[r['id']]['rule'], cases[r['id']]['label'], json.dumps(r.get('texts'), sort_keys=True)) for r in lints}
+    kinds = collections.Counter(r['kind'] for r in table['rows'])
+    reasons = collections.Counter(r['reason'] for r in table['rows'] if r['reason'] != 'RNone')
+    notices = collections.Counter(n for r in lints if not r['emb'] for n in r['notices'])
+    sample = []
+    for cid, emb in [(0, ()), (len(cases) // 2, ('C',)), (len(cases) - 1, ('A',))]:
+        r = primary(min(cid, len(cases) - 1), emb)
+        if r:
+            sample.append({'case': case_key(cases[r['id']]), 'emb': r['emb'], 'mode': r['mode'],
+                           'violations': [[x['title'], x['row'], x['col']] for x in r['violations']]})
+    cov = proof_coverage(ctx, {
+        'explanation': 'partial, enumerative claim: the layout layer and the docs-table obligations are kernel-checked '
+                       '(Props/C08.v); that each rule fires on its Avoid text and not on its Prefer text under every '
+                       'embedding of the grammar is decided by running the real linter on every docs page (or its fixture) '
+                       'x every embedding; no theorem covers rule bodies (no Rego semantics in Coq)',
+        'evaluations': len(lints),
+        'distinct_nontrivial': len(distinct),
+        'rule': 'one evaluation = one lint result for (docs page or fixture scenario, Avoid|Prefer, embedding); distinct = '
+                'distinct (rule, label, file texts) actually linted; compositions whose text equals an earlier one are '
+                'not linted again (mode dup, %d of them) but their text is checked against the model' % len(dups),
+        'docs_pages': len(table['rows']), 'page_kinds': dict(kinds), 'exception_reasons': dict(reasons),
+        'scenarios': len(cases), 'scenarios_from_docs_text': sum(1 for c in cases if c.get('from_docs')),
+        'scenarios_wrapped_in_package': sum(1 for c in cases if c.get('wrapped')),
+        'embeddings_per_scenario_max': max([len([1 for k in by if k[0] == c['id']]) for c in cases] or [0]),
+        'lint_calls_single': sum(1 for r in lints if r['mode'] == 'single'),
+        'results_from_batched_calls': sum(1 for r in lints if r['mode'] == 'batch'),
+        'identity_notices': dict(notices),
+        'line_table_texts_compared': len(lt.get('pairs', [])), 'mismatch_line_table': len(lt.get('bad', [])),
+        'coq_cases': len(items), 'mismatch_text_model': len(r1), 'mismatch_rows': len(r2), 'mismatch_location_text': len(r3),
+        'verdict_failures': sum(len(v) for v in bad.values()), 'batch_vs_single_mismatches': len(batch_mismatch),
+        'table_problems': problems[:10],
+        'samples': sample,
+        'exhaustive': 'over the docs table x the grammar up to the depth of the tier (quick: identity + 3 single '
+                      'transformations; thorough: all compositions up to depth 3 over {P1,P3,P10,T1,C,A}); not over policies',
+    })
+    return vlib.finish(ctx, 'other', cov, [
+        'the oracle is the docs\' own Avoid/Prefer labelling; fixtures under corpus/C08 supply what a page does not show '
+        '(second file, configuration, file name, pre-1.0 capabilities, the missing Prefer half)',
+        'no Coq semantics of Rego/OPA: nothing is proved about rule bodies or about OPA\'s parser locations',
+        'embeddings are applied to the text by the Go harness (strings functions); Model/Layout.v is tied to them by '
+        'Check.C08Check.text_agrees on every linted text of this run',
+        'batched lint calls (several copies of a single-file example in one Lint) are cross-checked against solo calls '
+        'for the single transformations (thorough tier)',
+    ])
